@@ -60,7 +60,7 @@ def check(ctx, tier):
         nsites += len(oi.sites)
         for ff, owner, test, eff in oi.sites:
             bad = sorted({(k, d, fn) for k, d, fn in eff if not allowed(policy, k, d)})
-            key = "R-EFFECT|%s|%s|%s" % (opt, ff.short, norm(test)[:50])
+            key = "R-EFFECT|%s|%s|%s" % (opt, ff.short, ff.key(test)[:50])
             if bad:
                 obs.append(Ob("D-a", "R-EFFECT", key, ff.loc(test), False,
                               "option %s controls `%s` in %s, whose arms differ in effects outside its documented scope: %s" % (
